@@ -81,29 +81,44 @@ def fold_normalize(repo, table, cnv, data, neutral_value):
     return k, v, me._region_coverage
 
 
-def profile_from(repo, table, cnv):
-    """Lifted tail of Profile.get_sam_profile_data: per-region sums of a per-position depth table."""
+class _GR(collections.namedtuple("GRange", ["chr", "start", "end"])):
+    _fold_ok = True
+
+    def samtools(self, pad_left=0, pad_right=0, prefix=""):
+        return (self.chr, self.start - pad_left, self.end + pad_right)
+
+
+def profile_from(repo, table, cnv, custom=True):
+    """Profile.get_sam_profile_data folded whole on a read set that realises the depth table (one 1M read per unit of
+    depth), with the custom (or default) copy-number-neutral region."""
     f = repo.func("profile::Profile.get_sam_profile_data")
-    loop = None
-    for n in f.body:
-        if isinstance(n, ast.For) and any(isinstance(x, ast.Subscript) and ast.unparse(x).startswith("d[g][r]") for x in ast.walk(n)):
-            loop = n
-    if loop is None:
-        raise AnalysisError("profile table construction (d[g][r][ri] = ...) not found in get_sam_profile_data")
-    idx = f.body.index(loop)
-    tail = [s for s in f.body[idx - 1:] if not isinstance(s, ast.Return)]
-    regions = {("G", r, gi): rng for gi, gr in enumerate(REGIONS) for r, rng in gr.items()}
-    regions["neutral", "value", 0] = CN
-    cov = collections.defaultdict(lambda: collections.defaultdict(int))
+    cn = _GR(*CN)
+    regions = {("G", r, gi): _GR(*rng) for gi, gr in enumerate(REGIONS) for r, rng in gr.items()}
+    reads = []
     for p in table:
-        cov["22"][p] = spec_depth(table, p)
+        reads += [read_stub([(0, 1)], start=p, seq="A")] * spec_depth(table, p)
     for p, c in cnv.items():
-        cov["22"][p] = c
-    ev = Evaluator({"gene_regions": regions, "cov": cov, "sam_path": "x.bam", "genome": "hg19", "params": {}})
-    kind, val = ev.run(tail)
-    if kind == "raise":
-        raise Raised(val)
-    return ev.locals["d"]
+        reads += [read_stub([(0, 1)], start=p, seq="A")] * c
+    opened = []
+
+    def fetch(region=None):
+        return [r for r in reads if region is None or region[1] <= r.reference_start < region[2]]
+
+    def open_(path, reference_filename=None):
+        opened.append(path)
+        return Obj(header={"SQ": [{"SN": "22"}]}, fetch=fetch)
+
+    params = [a.arg for a in f.args.args]
+    env = {"sam_path": "x.bam", "ref_path": None, "regions": regions, "cn_region": cn if custom else None, "genome": "hg19", "params": {}}
+    missing = [a for a in params if a not in env and a not in ("self", "cls")]
+    if missing:
+        raise AnalysisError(f"get_sam_profile_data has parameters the analysis does not know: {missing}")
+    ev = Evaluator(env, funcs={"pysam.AlignmentFile": open_, "GRange": _GR, "natsorted": sorted, "chr_prefix": lambda c, names: "",
+                               "defaultdict": collections.defaultdict})
+    kind, val = ev.run(fn_body(f))
+    if kind != "return":
+        raise Raised(f"{kind} {val}")
+    return val
 
 
 def r1(repo, res):
@@ -150,12 +165,14 @@ def r1(repo, res):
     try:
         d = profile_from(repo, table, cnv)
         k, v, outp = fold_normalize(repo, table, cnv, d, d["neutral"]["value"])
+        d0 = profile_from(repo, table, cnv, custom=False)
     except (Unfoldable, Raised, KeyError) as e:
-        res.err("C07.R1", f"profile writer tail outside folding language: {e}")
+        res.err("C07.R1", f"profile writer outside folding language: {e}")
         return
     cells = {k_: v_ for k_, v_ in outp.items() if d["G"][k_[1]][k_[0]]}
     ok = bool(cells) and all(abs(v_ - 2.0) < 1e-12 for v_ in cells.values()) and isinstance(d["neutral"]["value"], (int, float)) \
-        and list(d["neutral"]["hg19"]) == list(CN)
+        and list(d["neutral"]["hg19"]) == list(CN) and d["neutral"]["value"] == sum(cnv[i] for i in range(CN.start, CN.end)) \
+        and len(d0["neutral"]["hg19"]) == 3 and list(d0["neutral"]["hg19"]) != list(CN) and d0["neutral"]["value"] == 0
     res.ob("C07.R1", repo.func("profile::Profile.get_sam_profile_data"), f, ok,
            expected="profile written from a depth table, then the same table normalised against it -> exactly 2.0 in every covered region",
            found=str({f"{g}:{r}": round(v_, 6) for (g, r), v_ in outp.items()}), key="self-profile-2.0")
@@ -200,12 +217,23 @@ def r2(repo, res):
     res.analysed("sam::Sample.__init__")
 
 
+def loop_iter_name(loop):
+    """Name the read loop iterates over (bound to the sample reads)."""
+    if isinstance(loop.iter, ast.Name):
+        return loop.iter.id
+    raise AnalysisError(f"read loop at line {loop.lineno} does not iterate a plain name: {ast.unparse(loop.iter)}")
+
+
+def cn_loop(f):
+    return loop_over(f, lambda n: isinstance(n.iter, ast.Name) and any(isinstance(x, ast.Attribute) and x.attr == "_dump_cn" for x in ast.walk(n)))
+
+
 def depth_positions_cn(repo, cigar):
     f = repo.func("sam::Sample._load_cn_region")
-    loop = loop_over(f, lambda n: isinstance(n.target, ast.Name) and n.target.id == "read")
+    loop = cn_loop(f)
     me = Obj(_dump_cn=collections.defaultdict(int), _prefix="")
     rd = read_stub(cigar)
-    ev = Evaluator({"self": me, "iter": [rd], "cn_region": CN}, funcs={"_in_region": lambda a, b, c: True})
+    ev = Evaluator({"self": me, loop_iter_name(loop): [rd], "cn_region": CN}, funcs={"_in_region": lambda a, b, c: True})
     kind, val = ev.run([loop])
     if kind == "raise":
         raise Raised(val)
@@ -213,15 +241,19 @@ def depth_positions_cn(repo, cigar):
 
 
 def depth_positions_profile(repo, cigar):
+    """Reference positions the profile scanner counts for one read: the whole routine folded on a one-read file whose
+    single one-base regions report the depth position by position."""
     f = repo.func("profile::Profile.get_sam_profile_data")
-    loop = loop_over(f, lambda n: isinstance(n.target, ast.Name) and n.target.id == "read")
-    cov = collections.defaultdict(lambda: collections.defaultdict(int))
     rd = read_stub(cigar)
-    ev = Evaluator({"cov": cov, "c": "22", "sam": Obj(fetch=lambda region=None: [rd]), "region": "r"})
-    kind, val = ev.run([loop])
-    if kind == "raise":
-        raise Raised(val)
-    return sorted(p for p, c in cov["22"].items() for _ in range(c))
+    span = range(START - 3, START + 12)
+    regions = {("G", f"p{p}", 0): _GR("22", p, p + 1) for p in span}
+    env = {"sam_path": "x.bam", "ref_path": None, "regions": regions, "cn_region": _GR("22", 900, 901), "genome": "hg19", "params": {}}
+    ev = Evaluator(env, funcs={"pysam.AlignmentFile": lambda path, reference_filename=None: Obj(header={"SQ": [{"SN": "22"}]}, fetch=lambda region=None: [rd]),
+                               "GRange": _GR, "natsorted": sorted, "chr_prefix": lambda c, names: "", "defaultdict": collections.defaultdict})
+    kind, val = ev.run(fn_body(f))
+    if kind != "return":
+        raise Raised(f"{kind} {val}")
+    return sorted(p for p in span for _ in range(val["G"][f"p{p}"][0]))
 
 
 def r3(repo, res):
@@ -254,18 +286,34 @@ def r3(repo, res):
                found=f"gene {gene}; neutral {neutral}; profile {profile}",
                clause="the normalised depth of a two-copy reference reads as 2.0 (all three depths must be measured the same way)",
                key=f"sibling-depth:{name}")
-    # neutral counter skips what the gene pileup skips
+    # the neutral counter and the gene pileup agree on which alignments count (sibling agreement over the SAM flag)
+    ls = repo.func("sam::Sample._load_sam")
+    res.analysed(ls)
+    FLAGS = {"primary": 0, "reverse strand": 0x10, "paired, second in pair": 0x1 | 0x2 | 0x80, "secondary": 0x100, "supplementary": 0x800,
+             "secondary + supplementary": 0x900, "duplicate": 0x400, "failed vendor QC": 0x200, "unaligned (no CIGAR)": None}
     try:
-        sup = read_stub([(0, 4)], supplementary=True)
-        f = cnf
-        loop = loop_over(f, lambda n: isinstance(n.target, ast.Name) and n.target.id == "read")
-        me = Obj(_dump_cn=collections.defaultdict(int), _prefix="")
-        Evaluator({"self": me, "iter": [sup, read_stub(None)], "cn_region": CN}, funcs={"_in_region": lambda a, b, c: True}).run([loop])
-        ok = not me._dump_cn
+        gl = loop_over(ls, lambda n: any(isinstance(c, ast.Call) and call_name(c).endswith("_parse_read") for c in ast.walk(n)))
+        nl = cn_loop(cnf)
+        rows = {}
+        for label, fl in FLAGS.items():
+            rd = read_stub([(0, 4)], flag=fl, seq="ACGT", quals=[30] * 4) if fl is not None else read_stub(None, seq="ACGT")
+            calls = []
+            me = Obj(_parse_read=lambda *a, **kw: calls.append(a) or ((0, 0, 0), []), gene=Obj(get_wide_region=lambda: "REGION"), _prefix="",
+                     reads=None, _dump_reads=[], is_long_read=False)
+            Evaluator({"self": me, loop_iter_name(gl): [rd], "norm": {}, "muts": {}, "debug": None}, funcs={"_in_region": lambda a, b, c: True}).run([gl])
+            me2 = Obj(_dump_cn=collections.defaultdict(int), _prefix="")
+            Evaluator({"self": me2, loop_iter_name(nl): [rd], "cn_region": CN}, funcs={"_in_region": lambda a, b, c: True}).run([nl])
+            rows[label] = (bool(calls), bool(me2._dump_cn))
     except (Unfoldable, Raised) as e:
-        res.err("C07.R3", f"neutral counter outside folding language: {e}")
+        res.err("C07.R3", f"read loops outside folding language: {e}")
         return
-    res.ob("C07.R3", cnf, cnf, ok, expected="supplementary and unaligned reads are not counted in the neutral region either", found="ok" if ok else dict(me._dump_cn),
+    differ = {l: v for l, v in rows.items() if v[0] != v[1]}
+    res.ob("C07.R3", cnf, cnf, not differ and rows["primary"] == (True, True) and rows["supplementary"] == (False, False)
+           and rows["unaligned (no CIGAR)"] == (False, False),
+           expected="an alignment is counted in the neutral region exactly when the gene pileup counts it, for every SAM flag class "
+                    "(primary and secondary counted, supplementary and unaligned not)",
+           found="agree on " + str(len(rows)) + " flag classes" if not differ else f"(gene pileup counts, neutral counter counts) differ: {differ}",
+           clause="equals exactly 2.0 ... when the sample is the very sample the profile was generated from (numerator and denominator count the same alignments)",
            key="neutral-eligibility")
 
 
